@@ -12,6 +12,9 @@ RULE = ("one evaluation = one scenario on a real StdScheduler (public API, a Job
         "Verdict: Execute of the job starts within 300 ms of max(API return, its fire time, end of the blocking job / the worker becoming free). Not started after "
         "300 ms + 2 s more = violation at once; started late = the scenario is re-run alone up to three times and is a violation only if late again. "
         "A scenario is non-trivial when the loop was really parked / the stall was really entered (reported as stall '...-not-reached' otherwise); distinct by cell. "
+        "Plus stand-alone scenarios: the call under test overlaps Start / Stop;Start (16), and a SimpleTrigger(math.MaxInt64) job ('never') scheduled before / after a "
+        "5 ms job (4): the 5 ms job must start, 'never' must not run, and the loop must make fewer than 5000 Pop calls in 300 ms (a fire time that wrapped around "
+        "to the distant past stays at the head for ever: the loop spins and starves every other job). "
         "No exact differential run against the Lean model (interleavings are not replayable): the theorems cover every interleaving of the model, the tie is the "
         "regenerated facts (channel capacity, non-blocking Reset, Reset after the successful mutation under queueLocker in every mutator, loop order) plus this matrix")
 
